@@ -157,11 +157,28 @@ def _object_worker(args):
 
 
 # ---- hash seeds: one subprocess per PYTHONHASHSEED -----------------------------------------------------------
+def ordered(lst, order):
+    """Deterministic orderings of the object list: forward, reverse, rotations, interleaved by class hash."""
+    if order == 'forward':
+        return lst
+    if order == 'reverse':
+        return lst[::-1]
+    if order.startswith('rot'):
+        k = int(order[3:]) * len(lst) // 8
+        return lst[k:] + lst[:k]
+    if order == 'byhash':
+        return sorted(lst, key=lambda t: hash_str(t[0]))
+    if order == 'byhashrev':
+        return sorted(lst, key=lambda t: hash_str(t[0]), reverse=True)
+    return lst
+
+
 def digest_main():
     """Child process: prints one line per object: label <TAB> json digest <TAB> markdown digest."""
     core.import_repo()
     depth = int(sys.argv[2])
-    for label, o, qn, i, path in object_list(depth):
+    order = sys.argv[3] if len(sys.argv) > 3 else 'forward'
+    for label, o, qn, i, path in ordered(object_list(depth), order):
         j, m = render(o)
         dj = hashlib.md5(repr(j).encode()).hexdigest()[:12]
         dm = hashlib.md5(repr(m).encode()).hexdigest()[:12]
@@ -169,8 +186,11 @@ def digest_main():
 
 
 def _hashseed_worker(seed_value):
+    order = 'forward'
+    if isinstance(seed_value, tuple):
+        seed_value, order = seed_value
     env = dict(os.environ, PYTHONHASHSEED=str(seed_value), TZ='UTC')
-    out = subprocess.run([sys.executable, '-m', 'mc.props.c14', '--digest', '1'], cwd=core.VERIF, env=env,
+    out = subprocess.run([sys.executable, '-m', 'mc.props.c14', '--digest', '1', order], cwd=core.VERIF, env=env,
                          stdout=subprocess.PIPE, stderr=subprocess.PIPE, timeout=3000)
     acc = core.Acc()
     if out.returncode != 0:
@@ -181,8 +201,8 @@ def _hashseed_worker(seed_value):
         table[label] = (dj, dm)
     acc.counters['transitions'] = 2 * len(table)
     acc.state(core.h64('hashseed', seed_value))
-    return acc.counters, [], [{'part': 'hashseed', 'PYTHONHASHSEED': seed_value, 'objects': len(table)}], \
-        {core.h64('hs', seed_value)}, table
+    return acc.counters, [], [{'part': 'hashseed', 'PYTHONHASHSEED': seed_value, 'order': order, 'objects': len(table)}], \
+        {core.h64('hs', seed_value, order)}, table
 
 
 def hashseed_tables(ctx, seeds):
@@ -246,6 +266,36 @@ def _pair_worker(args):
     return acc.counters, [], [], set(), (ai, bi, hashlib.md5(repr((j, m)).encode()).hexdigest())
 
 
+def order_tables(ctx, orders):
+    """The whole object list serialised in one process per ordering; per-object output must not depend on what was
+    serialised before it (any first-writer-wins or last-writer-wins process state shows up between two orderings)."""
+    import multiprocessing
+    pool = multiprocessing.get_context('fork').Pool(min(len(orders), core.NPROC))
+    try:
+        res = pool.map(_hashseed_worker, [(0, o) for o in orders])
+    finally:
+        pool.terminate()
+        pool.join()
+    tables = {}
+    for o, r in zip(orders, res):
+        ctx.merge_counts(r[0])
+        for smp in r[2]:
+            ctx.sample(smp)
+        ctx.state_hashes.update(r[3])
+        tables[o] = r[4]
+    base = tables[orders[0]]
+    for o in orders[1:]:
+        t = tables[o]
+        for label in base:
+            if label in t and t[label] != base[label]:
+                qn = label.split('#')[0]
+                fmt = 'json' if t[label][0] != base[label][0] else 'markdown'
+                ctx.violation({'signature': 'history_order:%s:%s' % (qn.rsplit('.', 1)[1], fmt),
+                               'what': '%s output of %s depends on which objects were serialised before it (order %s vs %s)'
+                                       % (fmt, label, orders[0], o),
+                               'witness': {'part': 'order', 'label': label, 'orders': [orders[0], o]}})
+
+
 def histories(ctx, triples):
     import multiprocessing
     p = panel()
@@ -279,6 +329,9 @@ def run(ctx):
     ctx.pmap(_object_worker, [(p, parts, 1) for p in range(parts)])
     seeds = [0, 1, 2, 3] if ctx.quick else list(range(16))
     hashseed_tables(ctx, seeds)
+    orders = ['forward', 'reverse', 'rot3', 'byhash'] if ctx.quick else \
+        ['forward', 'reverse', 'rot1', 'rot2', 'rot3', 'rot5', 'rot6', 'byhash', 'byhashrev']
+    order_tables(ctx, orders)
     histories(ctx, not ctx.quick)
     ctx.assumptions += ['non-Serializable parsable classes are rendered the way a containing object renders them '
                         '(json.dumps through the library encoder, Serializable._markdown_result)',
@@ -286,7 +339,7 @@ def run(ctx):
                         'the same deterministic object list']
     return ctx.finish(rule='every object within one deviation of every seed object of every class: json.loads, '
                            'markdown is text, deep copy / equal round trip / every insertion order of 2-4 element '
-                           'set and dict fields serialise identically; PYTHONHASHSEED in %s; every ordered pair of a '
+                           'set and dict fields serialise identically; PYTHONHASHSEED in %s; the whole object list serialised in 4 (thorough 9) different orders, one process each; every ordered pair of a '
                            '%d-object panel vs. a fresh process' % (seeds, len(panel())))
 
 
@@ -301,6 +354,12 @@ def replay(ctx, w):
                 break
         vs = list(acc.violations.values())
         return vs[0] if vs else None
+    if w.get('part') == 'order':
+        c2 = core.Ctx('C14', 'quick', 0, replay_only=True)
+        order_tables(c2, w['orders'])
+        for sig, (v, n) in c2.violations.items():
+            return v
+        return None
     if w.get('part') == 'hashseed':
         c2 = core.Ctx('C14', 'quick', 0, replay_only=True)
         hashseed_tables(c2, w['seeds'])
